@@ -2069,8 +2069,9 @@ void chk_container_join_any(char const *kn, seq const &s)
     C const got = fcppt::container::join(a, b);
     expect(ints(got), s, "join", kn, "lvalues", par("split", static_cast<unsigned>(k)));
     expect(ints(b), b_before, "join", kn, "second-argument-unchanged", par("split", static_cast<unsigned>(k)));
+    // (lvalue operands only: rvalue operands of such a container stop compiling on a tree that takes the other branch)
     lib();
-    C const got2 = fcppt::container::join(C(a), b, C(a));
+    C const got2 = fcppt::container::join(a, b, a);
     seq want2(s.begin(), s.end());
     want2.insert(want2.end(), s.begin(), s.begin() + static_cast<std::ptrdiff_t>(k));
     expect(ints(got2), want2, "join", kn, "three-operands", par("split", static_cast<unsigned>(k)));
